@@ -120,6 +120,7 @@ type expectation struct {
 	payload []byte
 	spans   refcodec.Spans
 	ref     refcodec.RefPack
+	sfx     string // key suffix of the section ("", "/concurrent", "/after-mutation", "/after-reconnect", …)
 }
 
 func firstDiff(a, b []byte) int {
@@ -185,7 +186,7 @@ func diffPayload(c *vlib.Ctx, x *expectation, where string, actual []byte, extra
 			last = x.spans[len(x.spans)-1].Name
 		}
 		detail["last_reference_field"] = last
-		c.Fail(x.name+":length-differs",
+		c.Fail(x.name+":length-differs"+x.sfx,
 			fmt.Sprintf("%s %s: image has %d bytes, the reference %d (equal up to offset %d)", x.name, where, len(actual), len(x.payload), d), detail)
 		return false
 	}
@@ -206,20 +207,20 @@ func diffPayload(c *vlib.Ctx, x *expectation, where string, actual []byte, extra
 			if d2 >= 0 && d2 < len(content) && sp.End+d2 < len(x.payload) {
 				field = x.spans.At(sp.End + d2)
 				detail["field"] = field
-				c.Fail(x.name+"."+field+":bytes-differ",
+				c.Fail(x.name+"."+field+":bytes-differ"+x.sfx,
 					fmt.Sprintf("%s %s: body blob of %d bytes instead of %d; first differing byte at body offset %d, in reference field %q: expected %02x, got %02x",
 						x.name, where, len(content), len(x.payload)-sp.End, d2, field, x.payload[sp.End+d2], content[d2]), detail)
 				return false
 			}
 			if d2 >= 0 {
-				c.Fail(x.name+":length-differs",
+				c.Fail(x.name+":length-differs"+x.sfx,
 					fmt.Sprintf("%s %s: body blob has %d bytes, the reference %d (equal up to body offset %d)", x.name, where, len(content), len(x.payload)-sp.End, d2), detail)
 				return false
 			}
 		}
 	}
 	detail["field"] = field
-	c.Fail(x.name+"."+field+":bytes-differ",
+	c.Fail(x.name+"."+field+":bytes-differ"+x.sfx,
 		fmt.Sprintf("%s %s: first differing byte at payload offset %d, in reference field %q: expected %02x, got %02x",
 			x.name, where, d, field, x.payload[d], actual[d]), detail)
 	return false
@@ -276,7 +277,7 @@ func diffStream(c *vlib.Ctx, x *expectation, plans []sendPlan, frames [][]byte, 
 		detail[kk] = v
 	}
 	if d >= len(actual) || d >= len(expected) {
-		c.Fail(x.name+":length-differs",
+		c.Fail(x.name+":length-differs"+x.sfx,
 			fmt.Sprintf("%s %s: the peer received %d bytes, the reference stream has %d (equal up to offset %d)", x.name, where, len(actual), len(expected), d), detail)
 		return false
 	}
@@ -304,7 +305,7 @@ func diffStream(c *vlib.Ctx, x *expectation, plans []sendPlan, frames [][]byte, 
 			}
 		}
 		detail["field"] = "frame.header." + name
-		c.Fail("frame.header."+name+":differs",
+		c.Fail("frame.header."+name+":differs"+x.sfx,
 			fmt.Sprintf("%s %s: frame header field %q differs at frame offset %d: expected %02x, got %02x",
 				x.name, where, name, o, expected[d], actual[d]), detail)
 		return false
@@ -315,7 +316,7 @@ func diffStream(c *vlib.Ctx, x *expectation, plans []sendPlan, frames [][]byte, 
 	}
 	detail["field"] = field
 	detail["payload_offset"] = o - 22
-	c.Fail(x.name+"."+field+":bytes-differ",
+	c.Fail(x.name+"."+field+":bytes-differ"+x.sfx,
 		fmt.Sprintf("%s %s: first differing byte at payload offset %d, in reference field %q: expected %02x, got %02x",
 			x.name, where, o-22, field, expected[d], actual[d]), detail)
 	return false
@@ -573,6 +574,19 @@ func runCase(c *vlib.Ctx, caseID string, r *vlib.Rand, ref refcodec.RefPack, mk 
 func main() {
 	c := vlib.Start("C05")
 	n := c.N(500, 20000)
+	race := c.Flavour == "race"
+	if race {
+		// the race flavour runs the concurrency section only
+		nc := c.N(16, 160)
+		c.Cases("concurrent", nc, func(i int, r *vlib.Rand) { runConcurrent(c, fmt.Sprintf("concurrent#%d", i), i, r) })
+		if c.Only == "" {
+			per := int64(nc) / int64(c.NShards)
+			c.Floor("concurrent_frames_matched", per*15, c.Counter("concurrent_frames_matched"))
+			c.Floor("concurrent_images_compared", per*3, c.Counter("concurrent_images_compared"))
+		}
+		c.Finish()
+		return
+	}
 
 	c.Cases("TagCountPack", n, func(i int, r *vlib.Rand) {
 		ref := genTagCount(r)
@@ -644,9 +658,22 @@ func main() {
 		runCase(c, fmt.Sprintf("CounterPack1#%d", i), r, ref, func() pack.Pack { return toCounter(&src, acts) })
 	})
 
+	nConc, nHist, nFault := c.N(48, 960), c.N(1600, 64000), c.N(160, 6400)
+	c.Cases("concurrent", nConc, func(i int, r *vlib.Rand) { runConcurrent(c, fmt.Sprintf("concurrent#%d", i), i, r) })
+	c.Cases("history", nHist, func(i int, r *vlib.Rand) { runHistory(c, fmt.Sprintf("history#%d", i), i, r) })
+	c.Cases("fault", nFault, func(i int, r *vlib.Rand) { runFault(c, fmt.Sprintf("fault#%d", i), i, r) })
+
 	// observation floors (per shard; ≤ 10 % of what a healthy run reaches)
 	perShard := int64(8*n) / int64(c.NShards)
 	if c.Only == "" {
+		pc, ph, pf := int64(nConc)/int64(c.NShards), int64(nHist)/int64(c.NShards), int64(nFault)/int64(c.NShards)
+		c.Floor("concurrent_frames_matched", pc*30, c.Counter("concurrent_frames_matched"))
+		c.Floor("concurrent_images_compared", pc*5, c.Counter("concurrent_images_compared"))
+		c.Floor("history_frames_after_mutation", ph/5, c.Counter("history_frames_after_mutation"))
+		c.Floor("history_mutations", ph/4, c.Counter("history_mutations"))
+		c.Floor("fault_cuts_executed", pf/10, c.Counter("fault_cuts_executed"))
+		c.Floor("fault_reconnections", pf/10, c.Counter("fault_reconnections"))
+		c.Floor("fault_frames_matched", pf, c.Counter("fault_frames_matched"))
 		c.Floor("frames_received", perShard*4/10, c.Counter("frames_received"))
 		c.Floor("images_compared", perShard/10, c.Counter("images_compared"))
 		c.Floor("header_long_form", perShard/40, c.Counter("header_long_form"))
